@@ -416,6 +416,233 @@ def sec_noise(ctx, rng, case):
     ctx.sample({"program": P.describe(steps)[:6], "noise": spec.name, "prepend": prepend})
 
 
+def _purity(r):
+    return float(np.real(np.trace(r @ r)))
+
+
+def _group_moments(rng, steps):
+    """harness-side greedy packing: list of moments, each a list of steps (order inside = program order)"""
+    out, cur, used = [], [], set()
+    for st in steps:
+        w = set(st["w"])
+        if cur and ((w & used) or rng.random() < 0.15):
+            out.append(cur)
+            cur, used = [], set()
+        cur.append(st)
+        used |= w
+    if cur:
+        out.append(cur)
+    return out
+
+
+def _split_like_simulator(msteps):
+    """The known prefix/suffix split (see KNOWN_NOISE_SPLIT) re-done in the harness, only to *explain* deviations: measurement
+    steps and everything later on their wires go to the suffix; each moment is split in two; empty parts vanish."""
+    blocked = set()
+    pre, suf = [], []
+    for m in msteps:
+        a, b = [], []
+        for st in m:
+            if st["t"] != "M" and not (set(st["w"]) & blocked):
+                a.append(st)
+            else:
+                blocked |= set(st["w"])
+                b.append(st)
+        if a:
+            pre.append(a)
+        if b:
+            suf.append(b)
+    return pre, suf
+
+
+def sec_noise_models(ctx, rng, case):
+    """ThermalNoiseModel / InsertionNoiseModel: with_noise and the simulator follow the documented insertion rule, with the
+    thermal channel computed from the documented Lindblad operators"""
+    import cirq
+    from cirq.devices.noise_utils import PHYSICAL_GATE_TAG, OpIdentifier
+    from vf.refmodel import noise_model_ref as NR
+
+    n = int(rng.integers(1, 4))
+    dims = (2,) * n
+    qubits = [cirq.LineQubit(i) for i in range(n)]  # sorted order == wire order (system_qubits are passed sorted)
+    steps = P.gen_unitary_program(rng, dims, int(rng.integers(1, 7)), pred=lambda sp: len(sp.shape) >= 1)
+    measured = []
+    if rng.random() < 0.4:
+        k = int(rng.integers(1, n + 1))
+        measured = sorted(int(w) for w in rng.choice(n, size=k, replace=False))
+        pos = int(rng.integers(max(0, len(steps) - 1), len(steps) + 1))
+        # terminal for its wires: drop later steps on the measured wires
+        steps = steps[:pos] + [{"t": "M", "key": "m", "w": tuple(measured)}] + [st for st in steps[pos:] if not (set(st["w"]) & set(measured))]
+    msteps = _group_moments(rng, steps)
+    model_kind = "thermal" if rng.random() < 0.6 else "insertion"
+    require_tag = bool(rng.random() < 0.4)
+    prepend = bool(rng.random() < 0.35)
+    physical = [bool(rng.random() < 0.7) for _ in msteps] if require_tag else [True] * len(msteps)
+    moments = []
+    for mi, m in enumerate(msteps):
+        ops_ = [P.step_to_op(st, qubits) for st in m]
+        if require_tag and physical[mi]:
+            ops_ = [o.with_tags(PHYSICAL_GATE_TAG) for o in ops_]
+        moments.append(cirq.Moment(ops_))
+    circuit = cirq.Circuit(moments)
+    present = sorted(set(w for st in steps for w in st["w"]))
+    gtypes = [[type(P.step_to_op(st, qubits).gate) for st in m] for m in msteps]
+    all_types = sorted({t for ts in gtypes for t in ts}, key=lambda t: t.__name__)
+    wit = dict(program=[[P.describe([st])[0] for st in m] for m in msteps], model=model_kind, require_tag=require_tag, prepend=prepend,
+               physical=physical)
+
+    if model_kind == "thermal":
+        # exact types only, none a subclass of another key (sub-class matching order is not documented)
+        keys = [t for t in all_types if rng.random() < 0.75]
+        keys = [t for t in keys if not any(o is not t and issubclass(t, o) for o in keys)]
+        durs = {t: [0.0, 12.0, 25.0, float(rng.uniform(1, 60))][int(rng.integers(4))] for t in keys}
+
+        def rate():
+            r = rng.random()
+            if r < 0.2:
+                return None
+            if r < 0.6:
+                return float(rng.uniform(0, 0.02))
+            return {q: float(rng.uniform(0, 0.03)) for q in qubits if rng.random() < 0.7}
+        heat, cool, deph = rate(), rate(), rate()
+        skip_meas = bool(rng.random() < 0.6)
+        model = cirq.devices.ThermalNoiseModel(set(qubits), durs, heat_rate_GHz=heat, cool_rate_GHz=cool, dephase_rate_GHz=deph,
+                                               require_physical_tag=require_tag, skip_measurements=skip_meas, prepend=prepend)
+        wit.update(durations={t.__name__: d for t, d in durs.items()}, heat=repr(heat), cool=repr(cool), dephase=repr(deph), skip_measurements=skip_meas)
+
+        def rate_of(spec, w):
+            if spec is None:
+                return 0.0
+            if isinstance(spec, dict):
+                return spec.get(qubits[w], 0.0)
+            return spec
+
+        def noise_layer(m, ts, system):
+            t_ns = 0.0
+            for st, ty in zip(m, ts):
+                for k_, d in durs.items():
+                    if issubclass(ty, k_):
+                        t_ns = max(t_ns, d)
+                        break
+            if t_ns == 0:
+                return []
+            meas_w = set(w for st in m if st["t"] == "M" for w in st["w"])
+            out = []
+            for w in system:
+                if skip_meas and w in meas_w:
+                    continue
+                S = NR.thermal_superop(2, rate_of(heat, w), rate_of(cool, w), rate_of(deph, w), t_ns)
+                out.append(I.K(NR.kraus_from_superop(S, 2), [w]))
+            return out
+    else:
+        # insertion: OpIdentifier(gate type[, qubits]) -> op added (a channel on one of the op's qubits / a fixed qubit)
+        cs = [sp for sp in P.pools()["c"] if sp.shape == (2,)]
+        ids = []  # (type, wires or None, noise spec, params, noise wire)
+        for t in all_types + [cirq.EigenGate, cirq.Gate]:
+            if rng.random() < (0.7 if t in all_types else 0.3):
+                sp = cs[int(rng.integers(len(cs)))]
+                ids.append((t, None, sp, sp.sample(rng), int(rng.integers(n))))
+        # a qubit-specific identifier that must win over the generic one of the same type
+        cand = [(st, ty) for m, ts in zip(msteps, gtypes) for st, ty in zip(m, ts) if st["t"] != "M"]
+        if cand and rng.random() < 0.6:
+            st, ty = cand[int(rng.integers(len(cand)))]
+            sp = cs[int(rng.integers(len(cs)))]
+            ids.append((ty, tuple(st["w"]), sp, sp.sample(rng), int(st["w"][0])))
+        if rng.random() < 0.5:
+            ids = [ids[i] for i in rng.permutation(len(ids))]
+        uniq = {}
+        for x in ids:  # a dict keyed by identifier: a repeated identifier keeps its first position and takes the last value
+            uniq[(x[0], x[1])] = x
+        ids = list(uniq.values())
+        try:
+            added = {}
+            for ty, ws, sp, pp, nw in ids:
+                oid = OpIdentifier(ty, *[qubits[w] for w in ws]) if ws else OpIdentifier(ty)
+                added[oid] = sp.make(pp).on(qubits[nw])
+        except ValueError:
+            ctx.reject("constructor")
+            return
+        model = cirq.devices.InsertionNoiseModel(ops_added=added, prepend=prepend, require_physical_tag=require_tag)
+        wit.update(ids=[(ty.__name__, ws, sp.name, pp, nw) for ty, ws, sp, pp, nw in ids])
+
+        def contained(a, b):
+            """identifier a accepts a subset of what b accepts (documented: gate sub-type and/or qubit-specific)"""
+            return issubclass(a[0], b[0]) and (b[1] is None or (a[1] is not None and tuple(a[1]) == tuple(b[1])))
+
+        def noise_layer(m, ts, system):
+            out = []
+            for st, ty in zip(m, ts):
+                hit = None
+                for x in ids:  # dict order; the most specific wins, ties go to the first
+                    if not (issubclass(ty, x[0]) and (x[1] is None or tuple(x[1]) == tuple(st["w"]))):
+                        continue
+                    if hit is None or (contained(x, hit) and not contained(hit, x)):
+                        hit = x
+                if hit is not None:
+                    out.append(I.K(hit[2].ref(hit[3]), [hit[4]]))
+            return out
+
+    def build_ref(ms, tss, phys, system):
+        ref = []
+        for m, ts, ph in zip(ms, tss, phys):
+            body = P.to_ref(m)
+            nz = noise_layer(m, ts, system) if (ph or not require_tag) else []
+            ref += (nz + body) if prepend else (body + nz)
+        return ref
+
+    want = I.average_state(I.run(build_ref(msteps, gtypes, physical, present), dims))
+    # with_noise: system qubits = sorted(circuit.all_qubits())
+    try:
+        noisy = circuit.with_noise(model)
+    except ValueError as e:
+        ctx.reject("with_noise:" + str(e)[:40])
+        return
+    D = L.dim_of(dims)
+
+    def averaged(circ, **kw):
+        """probability-weighted average of the final density matrix over every measurement outcome path"""
+        if not measured:
+            return np.array(cirq.DensityMatrixSimulator(dtype=np.complex128, **kw).simulate(circ, qubit_order=qubits).final_density_matrix)
+
+        def run(rng_obj):
+            sim = cirq.DensityMatrixSimulator(dtype=np.complex128, seed=rng_obj, **kw)
+            return np.array(sim.simulate(circ, qubit_order=qubits).final_density_matrix, dtype=complex).tobytes()
+        ex = SR.explore(run, max_paths=64, min_branch=1e-9)
+        if ex.over_budget or ex.bad:
+            return None
+        return sum(p_ * np.frombuffer(b, dtype=complex).reshape(D, D) for p_, b, _ in ex.paths)
+
+    got = averaged(noisy)
+    if got is None:
+        ctx.event("explorer-over-budget")
+        return
+    ctx.check(L.allclose(got, want, 1e-7), "noise-model", "C09:with-noise:" + model_kind,
+              lambda: "circuit.with_noise(%s model) deviates from the documented rule by %.3g" % (model_kind, L.maxdiff(got, want)), **wit)
+    got2 = averaged(circuit, noise=model)
+    if got2 is None:
+        ctx.event("explorer-over-budget")
+        return
+    mech = "C09:simulator-noise:" + model_kind
+    if not L.allclose(got2, want, 1e-7):
+        # explained-by: split first (per-qubit), then noise on each part with that part's own qubits
+        idx = {id(st): (mi, si) for mi, m in enumerate(msteps) for si, st in enumerate(m)}
+        pre, suf = _split_like_simulator(msteps)
+
+        def side(ms):
+            tss = [[gtypes[idx[id(st)][0]][idx[id(st)][1]] for st in m] for m in ms]
+            phys = [physical[idx[id(m[0])][0]] for m in ms]
+            system = sorted(set(w for m in ms for st in m for w in st["w"]))
+            return build_ref(ms, tss, phys, system)
+        alt = I.average_state(I.run(side(pre) + side(suf), dims))
+        if L.allclose(got2, alt, 1e-7):
+            mech = KNOWN_NOISE_SPLIT
+    ctx.check(L.allclose(got2, want, 1e-7), "noise-model", mech,
+              lambda: "DensityMatrixSimulator(noise=%s model) deviates from the documented rule by %.3g" % (model_kind, L.maxdiff(got2, want)), **wit)
+    ctx.distinct((repr(wit["program"]), model_kind, require_tag, prepend, repr(wit.get("durations")), repr(wit.get("ids"))),
+                 nontrivial=_purity(want) < 1 - 1e-6)
+    ctx.sample({"program": wit["program"][:4], "model": model_kind, "purity": round(_purity(want), 6)})
+
+
 SECTIONS = [
     ("dm", sec_dm, 900, 25000, 4.0),
     ("dm_measure", sec_dm_measure, 300, 8000, 1.5),
@@ -423,4 +650,5 @@ SECTIONS = [
     ("moment_channel", sec_moment_channel, 400, 10000, 1.5),
     ("unravel", sec_unravel, 400, 10000, 3.0),
     ("noise", sec_noise, 500, 12000, 1.5),
+    ("noise_models", sec_noise_models, 500, 12000, 1.5),
 ]
